@@ -571,7 +571,7 @@ static int do_campaign(const Args& a) {
   }
   double t0 = now_s();
   uint64_t evals = 0, passes = 0, nontriv = 0, total_steps = 0, total_switches = 0, stale_cases = 0;
-  std::map<std::string, uint64_t> inconcl, labels, strategies;
+  std::map<std::string, uint64_t> inconcl, labels, strategies, counters;
   std::map<std::string, std::pair<uint64_t, uint64_t>> per_cfg;
   std::unordered_set<uint64_t> fps;
   std::vector<std::string> samples;
@@ -619,6 +619,8 @@ static int do_campaign(const Args& a) {
     static const char* sn[5] = {"uniform", "quantum", "pct", "stall", "preempt_k"};
     strategies[sn[S->out.strategy % 5]]++;
     for (uint32_t i = 0; i < S->n_labels; ++i) labels[S->labels[i]]++;
+    if (o.verdict == V_PASS)
+      for (uint32_t i = 0; i < S->n_counters; ++i) counters[S->counter_names[i]] += S->counters[i];
     if (o.verdict == V_PASS) {
       passes++;
       if (S->nontrivial) {
@@ -722,6 +724,7 @@ static int do_campaign(const Args& a) {
   jmap("inconclusive", inconcl);
   jmap("known_finding_hits", known_hits);
   jmap("labels", labels);
+  jmap("counters", counters);
   jmap("strategies", strategies);
   j += "\"per_cfg\":{";
   {
